@@ -2,8 +2,8 @@
 usage: seed_confirm.py <mutant dir containing patch.diff demo.py notes.md> <seed id> <property> [other properties...]
  1. in a scratch worktree of /repo (outside /repo and /verif): demo passes without the patch, fails with it,
     the test suite gives the same pass/fail set with and without the patch
- 2. applies the patch to /repo, runs bin/check for the listed properties, reverts /repo
- 3. stores /verif/seeded/<seed id>/{patch.diff,demo.py,notes.md,meta.json}"""
+ 2. stores /verif/seeded/<seed id>/{patch.diff,demo.py,notes.md,meta.json}
+ 3. runs the listed checks against the change through mutant_matrix.py (scratch copies; /repo is not touched)"""
 import json
 import os
 import re
@@ -72,28 +72,6 @@ try:
 finally:
     sh(f"git -C /repo worktree remove --force {WT}")
 
-results = {}
-if meta["confirmed"]:
-    rc, out = sh(f"git -C /repo apply {mdir}/patch.diff")
-    assert rc == 0, out
-    try:
-        for p in props:
-            t = time.time()
-            rc, out = sh(f"/verif/bin/check {p} --tier quick", cwd="/verif")
-            lines = [l for l in out.splitlines() if l.startswith(("VIOLATION", "KNOWN-FINDING", "OK"))]
-            results[p] = dict(rc=rc, lines=lines, wall=round(time.time() - t, 1))
-            if rc != 0:
-                for l in lines:
-                    m = re.search(r"replay=(\S+)", l)
-                    if m and os.path.exists(m.group(1)):
-                        rp = json.load(open(m.group(1)))
-                        results[p].setdefault("replays", []).append({k: rp.get(k) for k in ("reason", "what")})
-    finally:
-        sh("git -C /repo checkout -- .")
-        rc, out = sh("git -C /repo status --short")
-        assert out.strip() == "", "repo not clean: " + out
-meta["check_results"] = results
-meta["detected_by"] = [p for p, r in results.items() if r["rc"] != 0]
 dst = Path("/verif/seeded") / sid
 dst.mkdir(parents=True, exist_ok=True)
 for f in ("patch.diff", "demo.py", "notes.md"):
@@ -102,6 +80,8 @@ for f in ("patch.diff", "demo.py", "notes.md"):
 notes = (mdir / "notes.md").read_text() if (mdir / "notes.md").exists() else ""
 meta["needs_to_manifest"] = notes[:1500]
 (dst / "meta.json").write_text(json.dumps(meta, indent=1))
-print(json.dumps({k: meta[k] for k in ("id", "confirmed", "demo_without_patch_rc", "demo_with_patch_rc", "detected_by")}, indent=None))
-for p, r in results.items():
-    print(" ", p, r["rc"], r["lines"], r.get("replays"))
+print(json.dumps({k: meta[k] for k in ("id", "confirmed", "demo_without_patch_rc", "demo_with_patch_rc")}, indent=None))
+if meta["confirmed"] and os.environ.get("NO_MATRIX") != "1":
+    # the checks run on scratch copies of /verif and /repo (mutant_matrix.py): /repo itself is never modified
+    rc, out = sh(f"/venv/bin/python /verif/harness/mutant_matrix.py -j 1 {sid}", timeout=7200)
+    print(out[-3000:])
